@@ -150,7 +150,7 @@ def gen_plan(rng, tier='quick', config='B', traces=None):
         kind = rng.choice(moves)
         R = _move(rng, n, cur[s], kind)
         cur[s] = R
-        q = {'s': s, 'op': 'Q', 'R': list(R), 'rt': rng.choice(['nd', 'nd', 'list'])}
+        q = {'s': s, 'op': 'Q', 'R': list(R), 'rt': rng.choice(['nd', 'nd', 'list', 'slist'])}
         steps.append(q)
         last_q[s] = q
         prev_kind = kind if kind in ('refine', 'coarsen') else 'Q'
@@ -189,7 +189,14 @@ class _Sess(object):
 def _call(ev, metrics, sess, R, rt, cache_kind):
     """One public call.  cache_kind: 'session' (whatever the session's mode dictates), 'fresh'
     ({}), 'omitted' (argument not passed)."""
-    Rarg = np.array(R, dtype=np.int64) if rt == 'nd' else [int(r) for r in R]
+    if rt == 'nd':
+        Rarg = np.array(R, dtype=np.int64)
+    elif rt == 'slist':
+        # one list object per session, edited in place between queries (what rdp._grdp does: append + sort)
+        sess.rlist[:] = [int(r) for r in R]
+        Rarg = sess.rlist
+    else:
+        Rarg = [int(r) for r in R]
     if cache_kind == 'session':
         if sess.mode == 'shared':
             args = (sess.cache,)
@@ -250,6 +257,7 @@ def execute(plan, stats=None, check=True, want_events=True):
         s.cache = {}
         s.snaps = []
         s.tainted = False
+        s.rlist = []
         sessions.append(s)
     same_curve_diff_metric = len(set((s.curve) for s in sessions)) < len(sessions)
     if same_curve_diff_metric:
@@ -284,8 +292,10 @@ def execute(plan, stats=None, check=True, want_events=True):
                         nontrivial_fault = True
                     else:
                         bump('fault.idle')
-                if rt == 'list':
+                if rt in ('list', 'slist'):
                     bump('probe.list_typed_R')
+                if rt == 'slist':
+                    bump('probe.same_list_object_edited_in_place')
                 if r_sess[0] == 'exc':
                     raise Violation('O2', k, 'query raised on valid input: ' + r_sess[1])
                 v = r_sess[1]
